@@ -32,6 +32,9 @@ def mkErrV (p : List String) : Option EncErrV :=
   | ["lw", n] => n.toNat?.map .leafWrite
   | ["sm"] => some .sizeMismatch
   | ["io", kind, msg] => (parseHex msg).map fun m => .io (ioErrorText (str kind) m)
+  -- errors without a custom payload: a bare kind / an OS error; kind and Display text are given by the case line
+  | ["ios", kind, msg] => (parseHex msg).map fun m => .io (ioErrorText (str kind) m)
+  | ["ioo", _, kind, msg] => (parseHex msg).map fun m => .io (ioErrorText (str kind) m)
   | _ => none
 
 /-- both codecs and both round trips of a value -/
